@@ -4,6 +4,7 @@ import Qentem.Generated.NumToStr
 import Qentem.Proofs.NumToStrInt
 import Qentem.Proofs.NumToStrBits
 import Qentem.Proofs.NumToStrAppend
+import Qentem.Proofs.NumToStrIntClass
 /-! C10 — number to text equals the reference formatting for every value and precision.
 
 Model: `Qentem.NumToStr` (transcription of `Digit.hpp`), reference: `Qentem.FmtSpec` (ISO C
@@ -11,7 +12,7 @@ Model: `Qentem.NumToStr` (transcription of `Digit.hpp`), reference: `Qentem.FmtS
 `Nat`, so every statement holds for `char`, `char16_t` and `char32_t` alike. -/
 namespace Qentem.Props.C10
 open Qentem.NumToStr Qentem.Generated.NumToStr
-open Qentem.Proofs.NumToStr (IsWidth fmtOf)
+open Qentem.Proofs.NumToStr (IsWidth fmtOf IntValued64)
 
 /-! ### T1: the tables and constants compiled from the current headers are what the proofs assume
 (a changed table entry, mask, width or enum value breaks these). -/
@@ -166,6 +167,31 @@ theorem special_values_text :
     FmtSpec.format64 0x8000000000000000 0 .fixed = [45, 48] ∧
     FmtSpec.format32 0x80000000 4 .semiFixed = [45, 48] ∧
     FmtSpec.format32 0x7F800000 4 .semiFixed = [105, 110, 102] := by decide +kernel
+
+/-- Integer-valued normal doubles (exponent field `e ≥ 1023`, no fractional bits left):
+`2^52 + f = 2^j · odd` with `52 - j ≤ e - 1023`.  Every double of magnitude ≥ 2^52 is one
+(`integer_valued_of_big`), as is every integer below 2^53. -/
+def IntegerValued64 (bits : Nat) : Prop := ∃ j, IntValued64 ((bits / 2 ^ 52) % 2 ^ 11) (bits % 2 ^ 52) j
+
+theorem integer_valued_of_big (bits : Nat) (h1 : 1075 ≤ (bits / 2 ^ 52) % 2 ^ 11) (h2 : (bits / 2 ^ 52) % 2 ^ 11 < 2047) :
+    IntegerValued64 bits :=
+  Qentem.Proofs.NumToStr.intValued_of_big h1 h2 (Nat.mod_lt _ (Nat.two_pow_pos 52))
+
+/-- `format_eq_spec_integers`: for every integer-valued double — i.e. **every double with
+|x| ≥ 2^52 (47 % of all finite doubles) and every integer** — Fixed and SemiFixed print exactly the
+reference (`%.{p}f`, and `%.{p}f` stripped), at every precision, after any stream contents.  The
+digit run is exact (no rounding happens), so this is a full proof for that class. -/
+theorem format_eq_spec_integers (pre : List Nat) (bits p f : Nat) (hp : p ≤ 1048576) (hf : f = 1 ∨ f = 2)
+    (h : IntegerValued64 bits) :
+    realToString f64 pre bits p f = .ok (pre ++ FmtSpec.format64 bits p (specFmt f)) := by
+  obtain ⟨j, hj⟩ := h
+  exact Qentem.Proofs.NumToStr.int_class64 pre bits p f j hf hp hj
+
+/-- non-vacuity: 1e21 (= 0x444B1AE4D6E2EF50) and 3.0 are integer-valued; 0.5 is not -/
+example : IntegerValued64 0x444B1AE4D6E2EF50 := integer_valued_of_big _ (by decide) (by decide)
+example : IntegerValued64 0x4008000000000000 := ⟨51, by constructor <;> decide⟩
+example : realToString f64 [] 0x444B1AE4D6E2EF50 2 fmtFixed =
+    .ok [49,48,48,48,48,48,48,48,48,48,48,48,48,48,48,48,48,48,48,48,48,48,46,48,48] := by decide +kernel  -- 1000000000000000000000.00
 
 /-- `format_eq_spec_partial`: `FormatEqSpec` restricted to the special classes.  The rest — every
 finite non-zero value — is open; see `notes/design-numtostr.md`. -/
